@@ -248,8 +248,9 @@ func NewTypecast(scope *types.Scope, imports util.ImportNames, t types.Type, inn
 	var expr string
 	switch typ := util.DerefPtr(t).(type) {
 	case *types.Named:
-		// If the type is defined within the current package.
-		if scope.Lookup(typ.Obj().Name()) == typ.Obj() {
+		// A predeclared type such as error belongs to no package; otherwise
+		// if the type is defined within the current package.
+		if typ.Obj().Pkg() == nil || scope.Lookup(typ.Obj().Name()) == typ.Obj() {
 			expr = typ.Obj().Name()
 		} else if pkgName, ok := imports.LookupName(typ.Obj().Pkg().Path()); ok {
 			expr = fmt.Sprintf("%v.%v", pkgName, typ.Obj().Name())
